@@ -159,6 +159,110 @@ def check_sequence(case):
     return errors > 0 and len(seq) > 1, ["sequence", "len=%d" % len(seq), "errors=%d" % min(errors, 3)]
 
 
+# ---- life cycle: what an object does the SECOND time ---------------------------------------------------------------
+
+LIFE_EVENTS = ["none", "close", "quit", "disconnect_all", "close-twice", "error-call", "outage", "outage-reset-recv", "outage-twice", "idle"]
+LIFE_POST = [
+    {"op": "set", "key": "k", "value": "v"}, {"op": "set", "key": "j", "value": "w", "noreply": False, "expire": 5}, {"op": "get", "key": "k"},
+    {"op": "gets", "key": "j"}, {"op": "set_many", "values": {"a": "1", "b": "2"}}, {"op": "get_many", "keys": ["a", "k", "zz"]},
+    {"op": "delete", "key": "a"}, {"op": "touch", "key": "k", "expire": 9}, {"op": "add", "key": "k", "value": "x"}, {"op": "get", "key": "k"},
+    {"op": "incr", "key": "n", "delta": 2}, {"op": "gat", "key": "k", "expire": 3, "default": "D"},
+]
+DECOY = {"key_prefix": b"decoy:", "default_noreply": False, "allow_unicode_keys": True, "encoding": "latin-1"}
+
+
+def _make_stack(stack, env, kw):
+    if stack in ("client", "retry1"):
+        c = env.client("client", **kw)
+        return RetryingClient(c, attempts=1) if stack != "client" else c
+    return env.client(stack, **kw)
+
+
+def run_lifecycle(stack, cfg, event, decoy):
+    from vlib.harness import virtual_time
+    if cfg.get("serde") is not None and cfg.get("legacy"):
+        cfg = {k: v for k, v in cfg.items() if k != "legacy"}
+    env = Env()
+    srv = env.server
+    with virtual_time(env.clock):
+        c = _make_stack(stack, env, build_kwargs(cfg, env))
+        if decoy:
+            # another object of the same kind with different options, built later and used once: none of its business
+            d = _make_stack(stack, env, dict(DECOY, **({"default_noreply": True} if cfg.get("default_noreply") is False else {})))
+            env.call(d.get, "decoy-warm")
+        preload(env, cfg, "hit")
+        p = cfg.get("key_prefix", b"")
+        p = p.encode("ascii") if isinstance(p, str) else p
+        srv.store[p + b"n"] = Item(b"40", 0, 0, srv._next_cas(), srv.clock.now)
+        env.call(c.get, "warm")                      # a connection / inner clients exist before the event
+
+        def outage(kind):
+            srv.down = kind
+            for _ in range(6):
+                env.call(c.get, "k")                 # failures: not compared (the stacks legitimately differ while a server is out)
+                env.clock.advance(1.5)
+            srv.down = None
+            env.clock.advance(61)
+            env.call(c.get, "warm")                  # first call after the outage (revives the server in a HashClient)
+        if event in ("close", "close-twice"):
+            c.close()
+            if event == "close-twice":
+                env.call(c.get, "warm")
+                c.close()
+        elif event == "quit":
+            c.quit()
+        elif event == "disconnect_all":
+            c.disconnect_all()
+        elif event == "error-call":
+            env.call(c.incr, "k", 1)                 # CLIENT_ERROR from the server: the connection is dropped
+        elif event == "outage":
+            outage("refused")
+        elif event == "outage-reset-recv":
+            outage("reset-recv")
+        elif event == "outage-twice":
+            outage("timeout")
+            outage("refused")
+        elif event == "idle":
+            env.clock.advance(3600)
+        mark = len(env.net.log)
+        out = []
+        for r in LIFE_POST:
+            n0 = len(srv.log)
+            out.append((env.call(ops.invoke, c, dict(r, default=OBJ_D) if r.get("default") == "D" else r), srv.log[n0:]))
+        last_sock = [e[2] for e in env.net.log if e[3] == "socket"][-1:]
+        sockev = [(e[3], e[4]) for e in env.net.log if last_sock and e[2] == last_sock[0] and e[3] in ("socket", "setsockopt", "settimeout", "wrap", "connect")]
+        reconnected = any(e[3] == "socket" for e in env.net.log[mark:]) or event not in ("none", "idle")
+    return out, sockev, reconnected, env
+
+
+OBJ_D = "the-default"
+
+
+def lifecycle_cases(tier, seed):
+    for cfg in CFGS:
+        for event in LIFE_EVENTS:
+            for decoy in (False, True):
+                yield {"cfg": cfg, "event": event, "decoy": decoy}
+
+
+def check_lifecycle(case):
+    cfg, event, decoy = case["cfg"], case["event"], case["decoy"]
+    base, bsock, _r, _e = run_lifecycle("client", cfg, event, decoy)
+    for stack in STACKS:
+        got, sock, reconnected, env = run_lifecycle(stack, cfg, event, decoy)
+        for i, ((res, log), (bres, blog)) in enumerate(zip(got, base)):
+            desc = "%s vs Client at call %d (%r) after the event %r%s, cfg %r" % (stack, i, LIFE_POST[i], event, " (another %s with other options was built and used in between)" % stack if decoy else "", cfg)
+            if not same_result(res, bres):
+                raise Violation(["lifecycle-result", stack, event, LIFE_POST[i]["op"]], "returned %r, Client %r: %s" % (_short(res), _short(bres), desc))
+            if log != blog:
+                raise Violation(["lifecycle-wire", stack, event, LIFE_POST[i]["op"]], "server parsed %r, with Client %r: %s" % (_short(log), _short(blog), desc))
+        if sock and bsock and _sock_norm(sock) != _sock_norm(bsock):
+            raise Violation(["lifecycle-socket-config", stack, event], "the connection in use after the event %r was set up as %r, Client's as %r; cfg %r" % (event, sock, bsock, cfg))
+        if env.net.flags:
+            raise Violation(["net-flags", stack], "fake network flagged %r after event %r, cfg %r" % (env.net.flags[:2], event, cfg))
+    return event != "none", ["lifecycle", event] + (["decoy"] if decoy else [])
+
+
 def norm(res):
     if res[0] == "ok":
         return ("ok", res[1])
@@ -384,6 +488,7 @@ def sequence_strategy(tier):
 
 
 PARTS = [
+    Part("life-cycle", "enum", check_lifecycle, cases=lifecycle_cases, exhaustive=True),
     Part("grid", "enum", check, cases=grid_cases, exhaustive=True),
     Part("random", "hyp", check, strategy=random_strategy,
          examples={"quick": 300, "thorough": 10000}, shards={"quick": 6, "thorough": 16}),
